@@ -156,10 +156,20 @@ func runC20(c *vlib.HistCase) (bool, []string, error) {
 	var classes []string
 	sawAlarm, sawAccept := false, false
 	before := vlib.Metrics.Snapshot("witness_update")
+	promBefore, err := vlib.PromSnapshot("witness_update")
+	if err != nil {
+		return false, nil, fmt.Errorf("harness: prometheus gather: %v", err)
+	}
 	_, err = e.Exec(t, vlib.RunOpts{NoSnapshots: true, AfterStep: func(e *vlib.Env, _ vlib.Target, st *vlib.Step) error {
 		after := vlib.Metrics.Snapshot("witness_update")
 		d := vlib.Diff(before, after)
 		before = after
+		promAfter, perr := vlib.PromSnapshot("witness_update")
+		if perr != nil {
+			return fmt.Errorf("prometheus gather fails: %v", perr)
+		}
+		pd := vlib.Diff(promBefore, promAfter)
+		promBefore = promAfter
 		want := map[string]int{}
 		id := st.Req.LogID
 		if st.Req.LogIdx >= 0 {
@@ -183,6 +193,10 @@ func runC20(c *vlib.HistCase) (bool, []string, error) {
 		}
 		if fmt.Sprint(sortedMap(d)) != fmt.Sprint(sortedMap(want)) {
 			return fmt.Errorf("verdict %q (err=%v) for log %s moved counters %v, want %v", st.Verdict, st.Err, id[:8], sortedMap(d), sortedMap(want))
+		}
+		// The same through the repository's Prometheus binding, i.e. what is scraped.
+		if fmt.Sprint(sortedMap(pd)) != fmt.Sprint(sortedMap(want)) {
+			return fmt.Errorf("verdict %q (err=%v) for log %s moved the Prometheus counters (monitoring/prometheus, prefix %q) %v, want %v", st.Verdict, st.Err, id[:8], vlib.PromPrefix, sortedMap(pd), sortedMap(want))
 		}
 		return nil
 	}})
